@@ -102,6 +102,28 @@ def dedicated_programs():
                       'main': {'clock': 'T', 'seed': 1, 'steps': [
                           ['yield', 0.3], ['tempo', 'T', 2], ['yield', 0.6],
                           ['send', 0.0, 1], ['tempo', 'T', 0.5], ['yield', 0.2]]}}})
+    # two routines due at the same logical time on one clock, one of them yielding 0: it goes
+    # BEHIND the other one (they draw from the generator they both inherit, so the order shows
+    # in the values)
+    progs.append({'id': 'dZ0', 'start_offset': 0, 'clocks': {}, 'root': 'main',
+                  'routines': {
+                      'main': {'clock': 'sys', 'seed': 5, 'steps': [
+                          ['spawn', 'a', None], ['spawn', 'b', None], ['yield', 1.0]]},
+                      'a': {'seed': None, 'steps': [
+                          ['rand', 'rrand', 0, 999], ['yield', 0], ['rand', 'rrand', 0, 999],
+                          ['yield', 0.5], ['rand', 'rrand', 0, 999], ['yield', 0],
+                          ['rand', 'rrand', 0, 999]]},
+                      'b': {'seed': None, 'steps': [
+                          ['rand', 'rrand', 0, 999], ['yield', 0.5], ['rand', 'rrand', 0, 999],
+                          ['send', 0.1, 1]]}}})
+    # seeds that are not numbers: str and bytes seeds are valid seeds of a generator
+    progs.append({'id': 'dS0', 'start_offset': 0, 'clocks': {}, 'root': 'main',
+                  'routines': {
+                      'main': {'clock': 'sys', 'seed': 'melody-A', 'steps': [
+                          ['rand', 'rrand', 0, 999], ['spawn', 'a', None], ['yield', 0.25],
+                          ['rand', 'rand', 1.0], ['send', 0.1, 1], ['yield', 0.25]]},
+                      'a': {'seed': 'bass line', 'steps': [
+                          ['rand', 'rrand', 0, 999], ['yield', 0.125], ['rand', 'rand', 1.0]]}}})
     return progs
 
 
@@ -200,7 +222,7 @@ def isolation_programs(rng, n):
 # running
 # --------------------------------------------------------------------------
 
-def run_mode(progs, mode, seed, jitter=20, busy=2, nchildren=12):
+def run_mode(progs, mode, seed, jitter=20, busy=2, nchildren=12, env=None):
     if not progs:
         return {}, []
     nchildren = max(1, min(nchildren, len(progs)))
@@ -208,7 +230,7 @@ def run_mode(progs, mode, seed, jitter=20, busy=2, nchildren=12):
     order = sorted(progs, key=lambda p: -float(tl.reference(p)['last']))
     groups = [order[i::nchildren] for i in range(nchildren)]
     inputs = [{'mode': mode, 'seed': seed + i, 'jitter_ms': jitter,
-               'busy': busy,
+               'busy': busy, 'env': env or {},
                'jobs': [{'kind': 'programs', 'progs': g, 'concurrent': False}]}
               for i, g in enumerate(groups)]
     outs = run_children(inputs)
@@ -440,7 +462,7 @@ def main(rep):
             name='rt_vs_nrt',
             function='NrtMain vs RtMain over sc3.base.clock/stream/builtins/'
                      '_oscinterface',
-            bound='%d programs (6 dedicated + generated: 2-5 routines on '
+            bound='%d programs (8 dedicated + generated: 2-5 routines on '
                   'SystemClock/TempoClock(0.5,1,2,3)[/AppClock leaf], yields '
                   'on a 50 ms grid, <=%.1f s, one interaction of kind '
                   'pause-resume/Condition/FlowVar/tempo, seeded draws, '
@@ -451,14 +473,15 @@ def main(rep):
             rule='per routine identical (event,value) sequences, times within '
                  '2**-32 s, bundle timetags within 2**-31 s; features: %r'
                  % (st['feat'],),
-            samples=progs[6:9],
+            samples=progs[8:11],
             extra={'events_compared': st['events'],
                    'bundles_compared': st['bundles'],
                    'rt_runs_discarded_for_lateness': st['invalid'],
                    'max_rt_lateness_s': round(st['late'], 4)})
     if wants(rep, 'nrt_bytes'):
-        a, e1 = run_mode(progs, 'nrt', 1, nchildren=4)
-        b, e2 = run_mode(progs, 'nrt', 2, nchildren=3)
+        # "fresh" includes the interpreter's hash seed: pinned to two different values
+        a, e1 = run_mode(progs, 'nrt', 1, nchildren=4, env={'PYTHONHASHSEED': '11'})
+        b, e2 = run_mode(progs, 'nrt', 2, nchildren=3, env={'PYTHONHASHSEED': '2357'})
         for e in e1 + e2:
             rep.error('C10 child: ' + e[-1500:])
         n = nbytes = 0
